@@ -136,6 +136,28 @@ def run(pid, tier):
         traces.append(ev)
         meta.append({"kind": "roundtrip", "salt": s})
         ck.count(("salt", s))
+    if not thorough:
+        # quick: steer random plaintexts until every <position, previous symbol> state has met every EDGE byte value
+        # (multiples of 64 and their neighbours, 0/1, 253-255): 7 x 65 x 19 transitions; thorough covers all 116480
+        edge = sorted({0, 1, 2, 62, 63, 64, 65, 126, 127, 128, 129, 190, 191, 192, 193, 252, 253, 254, 255})
+        target = {(k, pv, b) for k in range(7) for pv in range(65) for b in edge}
+        budget, ev = 60000, [{"ev": "start"}]
+        while not target <= cover and budget > 0:
+            budget -= 1
+            sc = r.choice(ALPHA)
+            plain = "".join(chr(r.choice(edge)) if r.random() < 0.7 else chr(r.randrange(256)) for _ in range(14))
+            e = call_enc(plain, sc)
+            new = (covered_triples(e) & target) - cover
+            if new or e.get("ev") != "enc":
+                cover |= covered_triples(e)
+                ev.append(e)
+                if len(ev) > 60:
+                    traces.append(ev)
+                    meta.append({"kind": "cover-edge-bytes"})
+                    ev = [{"ev": "start"}]
+        traces.append(ev)
+        meta.append({"kind": "cover-edge-bytes"})
+        ck.notes["edge_byte_transitions_covered"] = "%d of %d" % (len(target & cover), len(target))
     # systematic cover of <pos, prev, byte>: plaintexts of 7 bytes, each byte value at each position, all salts
     if thorough:
         for s in ALPHA:
